@@ -198,7 +198,7 @@ fn chain_case(idx: u64) -> Option<(Vec<TK>, Vec<String>)> {
                 f /= nforms;
             }
             let mut kinds = vec![];
-            let mut lit = |kinds: &mut Vec<TK>| kinds.push(TK::IntegerLiteral);
+            let lit = |kinds: &mut Vec<TK>| kinds.push(TK::IntegerLiteral);
             let inner_op = |kinds: &mut Vec<TK>, same: bool| {
                 let op = if same { opset[0] } else if class == 2 { Some(TK::Asterisk) } else { Some(TK::Plus) };
                 if let Some(o) = op {
